@@ -1,15 +1,125 @@
 package main
 
 import (
+	"bytes"
+	"context"
 	"fmt"
+	"io"
 	"os"
 	"path/filepath"
 	"strings"
 
 	"github.com/ipfs/go-cid"
 	carv2 "github.com/ipld/go-car/v2"
+	"github.com/ipld/go-ipld-prime"
+	"github.com/ipld/go-ipld-prime/datamodel"
+	"github.com/ipld/go-ipld-prime/linking"
+	cidlink "github.com/ipld/go-ipld-prime/linking/cid"
+	basicnode "github.com/ipld/go-ipld-prime/node/basic"
+	"github.com/ipld/go-ipld-prime/traversal"
+	"github.com/ipld/go-ipld-prime/traversal/selector"
+	selectorparse "github.com/ipld/go-ipld-prime/traversal/selector/parse"
 	"github.com/multiformats/go-multicodec"
 )
+
+// refWalk: the walk `car get-dag` asks the traversal engine for (match-all-recursively, each link
+// once, absent blocks skipped unless strict), run here directly on go-ipld-prime over the blocks the
+// archive holds; returns the engine's load sequence. The engine is a recorded input of the model.
+func refWalk(have map[cid.Cid][]byte, root cid.Cid, strict bool) (loads []cid.Cid, err error) {
+	ls := cidlink.DefaultLinkSystem()
+	ls.TrustedStorage = true
+	ls.StorageReadOpener = func(_ linking.LinkContext, l datamodel.Link) (io.Reader, error) {
+		c := l.(cidlink.Link).Cid
+		d, ok := have[c]
+		if !ok {
+			if strict {
+				return nil, fmt.Errorf("not found")
+			}
+			return nil, traversal.SkipMe{}
+		}
+		loads = append(loads, c)
+		return bytes.NewReader(d), nil
+	}
+	rootNode, err := ls.Load(ipld.LinkContext{}, cidlink.Link{Cid: root}, basicnode.Prototype.Any)
+	if err != nil {
+		return loads, err
+	}
+	prog := traversal.Progress{Cfg: &traversal.Config{
+		LinkSystem: ls,
+		LinkTargetNodePrototypeChooser: func(datamodel.Link, ipld.LinkContext) (datamodel.NodePrototype, error) {
+			return basicnode.Prototype.Any, nil
+		},
+		LinkVisitOnlyOnce: true,
+	}}
+	sel, err := selector.CompileSelector(selectorparse.CommonSelector_MatchAllRecursively)
+	if err != nil {
+		return loads, err
+	}
+	err = prog.WalkMatching(rootNode, sel, func(traversal.Progress, datamodel.Node) error { return nil })
+	return loads, err
+}
+
+// getdagCases: a random dag-cbor/raw DAG packed (shuffled, with strangers, sometimes with a block
+// missing) into an archive, then `car get-dag` in both output versions, with the root given or taken
+// from the archive, strict or not.
+func (g *Gen) getdagCases(o *Out, dir string, thorough bool) {
+	d := g.buildDag(1 + g.pick(3))
+	var bs []Blk
+	for _, c := range d.all {
+		data, _ := d.store.Get(context.Background(), cidlink.Link{Cid: c}.Binary())
+		bs = append(bs, Blk{c, data})
+	}
+	g.Shuffle(len(bs), func(i, j int) { bs[i], bs[j] = bs[j], bs[i] })
+	missing := g.pick(4) == 0
+	if missing && len(bs) > 1 {
+		i := g.pick(len(bs))
+		if bs[i].C.Equals(d.root) && g.pick(2) == 0 {
+			i = (i + 1) % len(bs)
+		}
+		bs = append(bs[:i:i], bs[i+1:]...)
+	}
+	for i := 0; i < g.pick(3); i++ {
+		bs = append(bs, g.Block())
+	}
+	o.HashBlocks(bs)
+	roots := []cid.Cid{d.root}
+	if g.pick(4) == 0 {
+		roots = append(roots, g.Block().C)
+	}
+	var arch []byte
+	if g.pick(2) == 0 {
+		arch = writeAll(roots, bs, true)
+	} else {
+		arch = writeAll(roots, bs, false, carv2.UseDataPadding([]uint64{0, 11}[g.pick(2)]))
+	}
+	in := filepath.Join(dir, "dag.car")
+	os.WriteFile(in, arch, 0o644)
+	out := filepath.Join(dir, "dagout.bin")
+	have := map[cid.Cid][]byte{}
+	for _, b := range bs {
+		have[b.C] = b.D
+	}
+	for _, ver := range []int{1, 2} {
+		strict := g.pick(3) == 0
+		implicit := len(roots) == 1 && g.pick(2) == 0
+		loads, werr := refWalk(have, d.root, strict)
+		g.prepOut(out)
+		args := []string{"get-dag", fmt.Sprintf("--version=%d", ver)}
+		if strict {
+			args = append(args, "--strict")
+		}
+		if implicit {
+			args = append(args, in, out)
+		} else {
+			args = append(args, in, d.root.String(), out)
+		}
+		_, _, err := runCar(nil, dir, args...)
+		o.Line(fmt.Sprintf("cli op=getdag ver=%d strict=%d eng=%s root=%x loads=%s roots=%s blocks=%s in=%x", ver, b2i(strict), okOrErr(werr), d.root.Bytes(),
+			cidsStr(loads), rootsArg(roots), blocksStr(bs), arch), outRes(dir, out, err, true))
+		o.Count(fmt.Sprintf("getdag/v%d/missing=%d/%s", ver, b2i(missing), okOrErr(err)))
+	}
+}
+
 
 // judgeOut runs `car inspect --full` and `car verify` on an output archive.
 func judgeOut(dir, p string) string {
@@ -91,6 +201,18 @@ func (g *Gen) c19Archive(maxB int) c19Archive {
 	return a
 }
 
+// prepOut puts the output path into one of the states a user's disk can be in: absent, an old
+// shorter file, an old much longer file. Every sub-command must produce the same output.
+func (g *Gen) prepOut(p string) {
+	os.Remove(p)
+	switch g.pick(4) {
+	case 0:
+		os.WriteFile(p, g.bytes(1+g.pick(30)), 0o644)
+	case 1:
+		os.WriteFile(p, g.bytes(20000+g.pick(9000)), 0o644)
+	}
+}
+
 func famC19(g *Gen, o *Out, n int, thorough bool) {
 	base := tmpPath("c19")
 	os.MkdirAll(base, 0o755)
@@ -113,26 +235,26 @@ func famC19(g *Gen, o *Out, n int, thorough bool) {
 			if !thorough && g.pick(2) == 0 {
 				continue
 			}
-			os.Remove(out)
+			g.prepOut(out)
 			cname := map[string]string{"mh": "car-multihash-index-sorted", "sorted": "car-index-sorted", "none": "none"}[codec]
 			_, _, err := runCar(nil, dir, "index", "--codec="+cname, in, out)
 			o.Line(fmt.Sprintf("cli op=index ver=2 codec=%s %s", codec, desc), outRes(dir, out, err, true))
 			o.Count("index/" + codec)
 		}
-		os.Remove(out)
+		g.prepOut(out)
 		_, _, err := runCar(nil, dir, "index", "--version=1", in, out)
 		o.Line(fmt.Sprintf("cli op=index ver=1 codec=none %s", desc), outRes(dir, out, err, true))
 		// --- index create
 		{
 			codec := []string{"mh", "sorted"}[g.pick(2)]
 			cname := map[string]string{"mh": "car-multihash-index-sorted", "sorted": "car-index-sorted"}[codec]
-			os.Remove(out)
+			g.prepOut(out)
 			_, _, err := runCar(nil, dir, "index", "--codec="+cname, "create", in, out)
 			o.Line(fmt.Sprintf("cli op=indexcreate codec=%s %s", codec, desc), outRes(dir, out, err, false))
 			o.Count("indexcreate/" + codec)
 		}
 		// --- detach-index
-		os.Remove(out)
+		g.prepOut(out)
 		_, _, err = runCar(nil, dir, "detach-index", in, out)
 		o.Line(fmt.Sprintf("cli op=detach codec=%s sid=1 %s", map[bool]string{true: a.codec, false: "none"}[a.hasIdx], desc), outRes(dir, out, err, false))
 		o.Count(fmt.Sprintf("detach/hasidx=%d", b2i(a.hasIdx)))
@@ -153,7 +275,7 @@ func famC19(g *Gen, o *Out, n int, thorough bool) {
 				keys = append(keys, b.C, cid.NewCidV1(0x71, b.C.Hash()))
 			}
 			for _, k := range keys {
-				os.Remove(out)
+				g.prepOut(out)
 				_, _, err := runCar(nil, dir, "get-block", in, k.String(), out)
 				o.Line(fmt.Sprintf("cli op=getblock c=%x %s", k.Bytes(), desc), outRes(dir, out, err, false))
 				o.Count("getblock/" + okOrErr(err))
@@ -179,7 +301,7 @@ func famC19(g *Gen, o *Out, n int, thorough bool) {
 			os.WriteFile(cf, []byte(strings.Join(lines, "\n")+"\n"), 0o644)
 			for _, inv := range []bool{false, true} {
 				ver := 1 + g.pick(2)
-				os.Remove(out)
+				g.prepOut(out)
 				args := []string{"filter", "--cid-file=" + cf, fmt.Sprintf("--version=%d", ver)}
 				if inv {
 					args = append(args, "--inverse")
@@ -188,6 +310,83 @@ func famC19(g *Gen, o *Out, n int, thorough bool) {
 				o.Line(fmt.Sprintf("cli op=filter ver=%d inv=%d cids=%s %s", ver, b2i(inv), cidsStr(sel), desc), outRes(dir, out, err, true))
 				o.Count(fmt.Sprintf("filter/v%d/inv=%d", ver, b2i(inv)))
 			}
+		}
+		// --- filter --append: a first selection into a fresh CARv2, then more blocks of a second
+		// archive appended to it (and the refusals: --version 1, an existing CARv1 output)
+		if thorough || g.pick(2) == 0 {
+			var sel1 []cid.Cid
+			for _, b := range a.bs {
+				if g.pick(3) != 0 {
+					sel1 = append(sel1, b.C)
+				}
+			}
+			pver := 2
+			if g.pick(6) == 0 {
+				pver = 1
+			}
+			in1 := map[cid.Cid]bool{}
+			var l1 []string
+			for _, s := range sel1 {
+				in1[s] = true
+				l1 = append(l1, s.String())
+			}
+			cf1 := filepath.Join(dir, "cids1.txt")
+			os.WriteFile(cf1, []byte(strings.Join(l1, "\n")+"\n"), 0o644)
+			os.Remove(out)
+			if _, _, err := runCar(nil, dir, "filter", "--cid-file="+cf1, fmt.Sprintf("--version=%d", pver), in, out); err == nil {
+				prev, _ := os.ReadFile(out)
+				var proots []cid.Cid
+				for _, r := range a.roots {
+					if in1[r] {
+						proots = append(proots, r)
+					}
+				}
+				var pblocks []Blk
+				for _, b := range a.bs {
+					if in1[b.C] {
+						pblocks = append(pblocks, b)
+					}
+				}
+				b2 := g.c19Archive(4)
+				if g.pick(3) == 0 {
+					b2 = a // the same archive again: everything already there is skipped
+				}
+				o.HashBlocks(b2.bs)
+				in2 := filepath.Join(dir, "in2.car")
+				os.WriteFile(in2, b2.bytes, 0o644)
+				var sel2 []cid.Cid
+				for _, b := range b2.bs {
+					if g.pick(2) == 0 {
+						sel2 = append(sel2, b.C)
+					}
+				}
+				var l2 []string
+				for _, s := range sel2 {
+					l2 = append(l2, s.String())
+				}
+				cf2 := filepath.Join(dir, "cids2.txt")
+				os.WriteFile(cf2, []byte(strings.Join(l2, "\n")+"\n"), 0o644)
+				inv := g.pick(2) == 0
+				ver := 2
+				if g.pick(8) == 0 {
+					ver = 1
+				}
+				args := []string{"filter", "--append", "--cid-file=" + cf2, fmt.Sprintf("--version=%d", ver)}
+				if inv {
+					args = append(args, "--inverse")
+				}
+				_, _, err := runCar(nil, dir, append(args, in2, out)...)
+				if err != nil {
+					os.Remove(out) // a refused append: whatever it left is not an output
+				}
+				o.Line(fmt.Sprintf("cli op=filterappend ver=%d pver=%d inv=%d cids=%s proots=%s pblocks=%s prev=%x roots=%s blocks=%s in=%x", ver, pver, b2i(inv), cidsStr(sel2),
+					rootsArg(proots), blocksStr(pblocks), prev, rootsArg(b2.roots), blocksStr(b2.bs), b2.bytes), outRes(dir, out, err, true))
+				o.Count(fmt.Sprintf("filterappend/v%d/pv%d", ver, pver))
+			}
+		}
+		// --- get-dag
+		if thorough || g.pick(2) == 0 {
+			g.getdagCases(o, dir, thorough)
 		}
 		// --- concat with one or two more archives
 		{
@@ -205,7 +404,7 @@ func famC19(g *Gen, o *Out, n int, thorough bool) {
 				d = append(d, fmt.Sprintf("roots%d=%s blocks%d=%s in%d=%x", i, rootsArg(x.roots), i, blocksStr(x.bs), i, x.bytes))
 			}
 			for _, ver := range []int{1, 2} {
-				os.Remove(out)
+				g.prepOut(out)
 				_, _, err := runCar(nil, dir, append([]string{"concat", fmt.Sprintf("--version=%d", ver), "--output=" + out}, args...)...)
 				o.Line(fmt.Sprintf("cli op=concat ver=%d n=%d %s", ver, len(ins), strings.Join(d, " ")), outRes(dir, out, err, true))
 				o.Count(fmt.Sprintf("concat/v%d", ver))
